@@ -164,7 +164,10 @@ Section Trie.
     | KRe src pos0 :: rest =>
       match aget src rx with
       | Some sub =>
-        if pos0 then (t, IExisting)
+        if pos0 then
+          (* the node may have been created by a deeper host and hold no value yet *)
+          if is_some (t_kv sub) then (t, IExisting)
+          else (Node kv w ch (aset src (Node (Some (key, v)) (t_wild sub) (t_children sub) (t_regexps sub)) rx), IOk)
         else let '(sub', r) := insert_w sub rest key v in
              (Node kv w ch (aset src sub' rx), r)
       | None =>
@@ -209,6 +212,14 @@ Section Trie.
       else ((s, sub) :: r', b)
     end.
 
+  Definition clear_kv (t : trie) : trie * bool :=
+    let '(Node kv w ch rx) := t in
+    if is_some kv then (Node None w ch rx, true) else (t, false).
+
+  (** [regexps.retain(|(r, node)| r != src || !node.is_empty())] *)
+  Definition rx_prune (src : bytes) (rx : list (bytes * trie)) : list (bytes * trie) :=
+    filter (fun p => negb (beq (fst p) src) || negb (t_is_empty (snd p))) rx.
+
   Fixpoint remove_w (t : trie) (steps : list kstep) : trie * bool :=
     let '(Node kv w ch rx) := t in
     match steps with
@@ -216,12 +227,10 @@ Section Trie.
     | KStar :: _ => if is_some w then (Node kv None ch rx, true) else (t, false)
     | KBad :: _ => (t, false)
     | KRe src pos0 :: rest =>
-      if pos0 then
-        let rx' := adel src rx in
-        (Node kv w ch rx', Nat.ltb (length rx') (length rx))
-      else
-        let '(rx', b) := rx_remove (fun sub => remove_w sub rest) src rx in
-        (Node kv w ch rx', b)
+      (* pos0: drop this host's own value in the regex node; else recurse.
+         Either way a regex subtree emptied by the removal is pruned. *)
+      let '(rx', b) := rx_remove (fun sub => if pos0 then clear_kv sub else remove_w sub rest) src rx in
+      if b then (Node kv w ch (rx_prune src rx'), true) else (t, false)
     | KLab s _ :: rest =>
       match aget s ch with
       | None => (t, false)
@@ -236,26 +245,33 @@ Section Trie.
 
   Definition remove (t : trie) (key : bytes) : trie * bool := remove_w t (ksteps key).
 
-  (** first regex of the node that matches the segment *)
-  Fixpoint rx_find (seg : bytes) (rx : list (bytes * trie)) : option trie :=
-    match rx with
-    | [] => None
-    | (src, sub) :: r => if re_match src seg then Some sub else rx_find seg r
-    end.
-
-  (** [lookup] / [lookup_with_path] (the trace is not modelled) *)
+  (** [lookup] / [lookup_with_path] (the trace is not modelled): the literal
+      child first, then the wild-card, then the regexes in order; a branch that
+      yields nothing for the rest of the name falls through to the next one. *)
   Fixpoint lookup_w (t : trie) (segs : list bytes) (aw : bool) : option (bytes * V) :=
     match segs with
     | [] => t_kv t
     | s :: rest =>
-      match aget s (t_children t) with
-      | Some child => lookup_w child rest aw
+      let lit := match aget s (t_children t) with
+                 | Some child => lookup_w child rest aw
+                 | None => None
+                 end in
+      match lit with
+      | Some x => Some x
       | None =>
         if is_nil rest && is_some (t_wild t) && aw then t_wild t
-        else match rx_find (seg_body s) (t_regexps t) with
-             | Some sub => lookup_w sub rest aw
-             | None => None
-             end
+        else
+          (fix try_rx (rx : list (bytes * trie)) : option (bytes * V) :=
+             match rx with
+             | [] => None
+             | (src, sub) :: r =>
+               if re_match src (seg_body s) then
+                 match lookup_w sub rest aw with
+                 | Some x => Some x
+                 | None => try_rx r
+                 end
+               else try_rx r
+             end) (t_regexps t)
       end
     end.
 
